@@ -68,10 +68,13 @@ def _cond_actors(draw):
         # contended template: never-expiring and expiring waiters asleep together while notify() runs
         to = draw(st.sampled_from([0.5, 3.0]))
         same_proc = draw(st.booleans())
-        for _ in range(draw(st.integers(1, 2))):
+        for _ in range(draw(st.integers(0, 2))):
             actors.append({"proc": 0 if same_proc else draw(st.integers(0, 2)), "ops": [["wait", None]]})
-        for _ in range(draw(st.integers(1, 2))):
-            actors.append({"proc": 0 if same_proc else draw(st.integers(0, 2)), "ops": [["wait", to]]})
+        for _ in range(draw(st.integers(1, 3))):
+            ops = [["wait", to]]
+            if draw(st.integers(0, 2)) == 0:
+                ops.append(["wait", draw(st.sampled_from([0.5, 3.0]))])      # a later, un-notified timed wait
+            actors.append({"proc": 0 if same_proc else draw(st.integers(0, 2)), "ops": ops})
         nops = [["sleep", draw(st.sampled_from([0.3, 0.3, 2.0, 10.0]))]]
         for _ in range(draw(st.integers(1, 2))):
             nops.append([draw(st.sampled_from(["notify", "notify", "notify", "notify_all"]))])
@@ -259,6 +262,11 @@ def _cond(case, H):
                       f"`with cond` returned with recursion count {o.get('count_after')}", "where": "wait"})
         if o["out"] and o["out"][0] == "ret" and o.get("mine_after") is False:
             v.append({"kind": "wait_returned_without_lock", "detail": f"actor{o['actor']} wait returned without holding the lock", "where": "wait"})
+    notified = {tuple(k) for o in nots for k, _ in (o.get("asleep_at_start") or [])}
+    for o in waits:
+        if o["out"] == ["ret", True] and (o["actor"], o["k"]) not in notified:
+            v.append({"kind": "wait_true_without_notify", "detail": f"actor{o['actor']} wait({o['op'][1]}) [{o['start']}..{o['end']}] returned "
+                      f"True but no notify/notify_all began while it was asleep", "where": "wait"})
     if H.max_occ > 1:
         v.append({"kind": "condition_lock_not_exclusive", "detail": f"{H.max_occ} actors inside `with cond` at once", "where": "occ"})
     obs = [o for o in H.ops if o["op"][0] == "observe"]
@@ -392,7 +400,9 @@ def predicates(H, v):
         for w_ in H.ops:
             if w_["op"][0] in ("wait", "ewait") and w_.get("fires") and w_["op"][1] is not None:
                 preds.add("timed_wait_expired")
-        if "timed_wait_expired" in preds and any(len(o.get("asleep_at_start") or []) >= 2 for o in nots if o["op"][0] == "notify"):
+        if "timed_wait_expired" in preds and any(
+                len(o.get("asleep_at_start") or []) >= 2 and any(x[1] is None for x in o["asleep_at_start"])
+                and any(x[1] is not None for x in o["asleep_at_start"]) for o in nots if o["op"][0] in ("notify", "notify_all")):
             preds.add("timeout_fired_with_notify_and_two_sleepers")
     return sorted(preds)
 
@@ -405,4 +415,9 @@ def hooks(w, ctx=None):
     return None
 
 
+def sweep_profile(tier):
+    return profile(tier)
+
+
+SWEEP = (24, 300)
 install(globals(), ID, 6000, 80000)
